@@ -240,7 +240,7 @@ def _check_file(nt, tf, path, subgrids, case):
         flag = {"bool": fwd, "np": np.bool_(fwd), "int": int(fwd)}[rep]
         t = tf.ntv2_2d(g, lat, lon, flag, method) if not q.get("kw") else tf.ntv2_2d(g, lat, lon, forward_tf=flag, method=method)
         sgn = 1.0 if fwd else -1.0
-        want_t = (lat + sgn * res[0] / 3600.0, lon - sgn * res[1] / 3600.0)
+        want_t = (float(lat) + sgn * float(res[0]) / 3600.0, float(lon) - sgn * float(res[1]) / 3600.0)   # in double precision, whatever type the shifts came back as
         if not (abs(t[0] - want_t[0]) <= 1e-12 and abs(t[1] - want_t[1]) <= 1e-12):
             raise Fail("ntv2_2d does not add the latitude shift and subtract the positive-west longitude shift (opposite in reverse)",
                        expected=want_t, observed=dict(ctx, forward=fwd, result=t, shifts=res[:2]), bucket="ntv2_2d sign")
